@@ -55,12 +55,12 @@ type faultCfg struct {
 }
 
 type world struct {
-	sim   *sched.Sim
-	res   *harness.Result
-	dir   string
-	imgs  map[string]*img // by href
+	sim    *sched.Sim
+	res    *harness.Result
+	dir    string
+	imgs   map[string]*img // by href
 	byPath map[string]*img
-	fc    faultCfg
+	fc     faultCfg
 
 	mu       sync.Mutex
 	outcome  map[string]string // href -> "ok" | failure kind, for the current call
